@@ -377,6 +377,8 @@ def run(ctx: Ctx) -> None:
     rule_emit_mirror(ctx)
     rule_replay(ctx)
     rule_graph_tableau_whole(ctx)
+    from ..rules import echelon as _echelon
+    _echelon.rule_elim_direction(ctx)
     tm = repo.module(TR)
     handled = tables.handled_tags_chain(repo, tm, repo.anchor(TR, "run_circuit"))
     try:
